@@ -274,6 +274,12 @@ def build(tier, repo):
                                  "reach the routine (or an equivalent scaling) whenever the output is non-empty", "early return")
     r4.require(20)
 
+    r7 = chk.rule("C17-R7", "default of an omitted n in the level-1 wrappers = number of elements addressed from the offset with the stride",
+                  "the documented defaults")
+    nd = cw.default_length_rule(r7, c, wrappers)
+    chk.note_analysed("default_length_expressions", nd)
+    r7.require(12)
+
     r6 = chk.rule("C17-R6", "complex dot/dotu composed of the right four real dot products", "equals the mathematical definition")
     for fn, conj in (("dot", True), ("dotu", False)):
         if fn not in c.funcs:
